@@ -82,7 +82,8 @@ def _is_pure(e):
             f = x.func
             if isinstance(f, ast.Name) and f.id in (
                     'len', 'bytes', 'int', 'str', 'min', 'max', 'abs',
-                    'tuple', 'frozenset', 'ord', 'chr', 'bool', 'divmod'):
+                    'tuple', 'frozenset', 'ord', 'chr', 'bool', 'divmod',
+                    'getattr', 'isinstance', 'any', 'all', 'hasattr'):
                 continue
             if isinstance(f, ast.Attribute) and f.attr in (
                     'decode', 'encode', 'lower', 'upper', 'strip', 'rstrip',
